@@ -566,6 +566,8 @@ static void doPfok(const vx_cmd* c)
 	static const char* T[4] = { "xa", "xb", "ua", "ub" }; octet* priv[4]; octet* pub[4]; char key[16];
 	e = pfokParamsStd(P, 0, name ? name : ""); jInt("rcStd", e);
 	if (e != ERR_OK) { free(P); return; }
+	/* n=<bits>: another admissible length of the shared key (pfok.h: n < l; the result is [O_OF_B(n)]sharekey, n bits) */
+	if (vxArg(c, "n")) P->n = (size_t)vxInt(c, "n", (long long)P->n);
 	no = O_OF_B(P->l); mo = O_OF_B(P->r); ko = O_OF_B(P->n);
 	jInt("l", (long long)P->l); jInt("r", (long long)P->r); jInt("n", (long long)P->n); jOct("p", P->p, no); jOct("g", P->g, no);
 	for (i = 0; i < 4; ++i)
